@@ -45,19 +45,24 @@ fn c10_families(thorough: bool) -> Vec<Family> {
     const BIN: [VK; 4] = [VK::Add, VK::Sub, VK::Mul, VK::Div];
     const ALLA: [AK; 3] = [AK::Connect, AK::AssertZero, AK::AssertBool];
     const CONN: [AK; 2] = [AK::Connect, AK::AssertZero];
+    let wide = [VK::Add, VK::Mul, VK::Sub, VK::MulAdd, VK::Select, VK::Horner, VK::Bits(2)];
     let mut v = vec![
         // single call of every kind (empty / single-row tables)
-        fam("all-k1-c1", &[VK::Add, VK::Sub, VK::Mul, VK::Div, VK::MulAdd, VK::Select, VK::Horner, VK::Bits(2)], &ALLA, 1, 1, 4, 1, &[0, 1, 2], 1),
-        // Horner shapes: arbitrary accumulators, chains, shared operands
+        fam("all-k1-c1", &[VK::Add, VK::Sub, VK::Mul, VK::Div, VK::MulAdd, VK::Select, VK::Horner, VK::Bits(2), VK::Bits(3)], &ALLA, 1, 1, 4, 1, &[0, 1, 2], 1),
+        // Horner shapes: chains from zero, arbitrary accumulators, shared operands, adjacent chains
         fam("horner-k2-c0", &[VK::Horner], &CONN, 2, 0, 3, 0, &[2], 2),
+        fam("horner-k3-c0", &[VK::Horner], &CONN, 3, 0, 2, 0, &[2], 3),
         // binary arithmetic with aliasing through one assertion
-        fam("bin-k2-c1", &BIN, &ALLA, 2, 1, 2, 1, &[2], 0),
+        fam("bin-k2-c1", &BIN, &ALLA, 2, 1, 3, 1, &[0, 1, 2], 0),
+        // one wide call + one more call
+        fam("wide-k2-c1", &wide, &CONN, 2, 1, 3, 1, &[2], 1),
     ];
     if thorough {
-        v.push(fam("bin-k2-c1-wide", &BIN, &ALLA, 2, 1, 3, 1, &[0, 1, 2], 0));
-        v.push(fam("horner-k3-c0", &[VK::Horner, VK::Add], &CONN, 3, 0, 3, 0, &[2], 3));
-        v.push(fam("wide-k2-c1", &[VK::Add, VK::Mul, VK::MulAdd, VK::Select, VK::Horner, VK::Bits(2)], &CONN, 2, 1, 3, 1, &[2], 2));
-        v.push(fam("bin-k2-c2", &BIN, &CONN, 2, 2, 3, 0, &[2], 0));
+        v.push(fam("bin-k2-c2", &BIN, &ALLA, 2, 2, 3, 1, &[0, 1, 2], 0));
+        v.push(fam("horner-k4-c0", &[VK::Horner], &CONN, 4, 0, 2, 0, &[2], 4));
+        v.push(fam("horner-mix-k3-c1", &[VK::Horner, VK::Add, VK::Mul], &CONN, 3, 1, 3, 0, &[2], 3));
+        v.push(fam("wide-k2-c1-w2", &wide, &ALLA, 2, 1, 4, 1, &[0, 1, 2], 2));
+        v.push(fam("bin-k3-c1", &BIN, &CONN, 3, 1, 2, 1, &[2], 0));
     }
     v
 }
@@ -66,9 +71,11 @@ fn packings(thorough: bool) -> Vec<(String, TablePacking)> {
     let mut v = vec![("default".to_string(), TablePacking::default())];
     v.push(("pub2-alu2".into(), TablePacking::new(2, 2)));
     v.push(("pub1-alu3-k3".into(), TablePacking::new(1, 3).with_horner_pack_k(3)));
+    v.push(("pub2-alu1-min8".into(), TablePacking::new(2, 1).with_min_trace_height(8)));
+    v.push(("pub1-alu2-k4".into(), TablePacking::new(1, 2).with_horner_pack_k(4)));
     if thorough {
-        v.push(("pub2-alu1-min8".into(), TablePacking::new(2, 1).with_min_trace_height(8)));
-        v.push(("pub1-alu2-k4".into(), TablePacking::new(1, 2).with_horner_pack_k(4)));
+        v.push(("pub3-alu4-k2-min16".into(), TablePacking::new(3, 4).with_min_trace_height(16)));
+        v.push(("pub1-alu1-k5".into(), TablePacking::new(1, 1).with_horner_pack_k(5)));
     }
     v
 }
@@ -218,7 +225,7 @@ fn main() {
     let proved = AtomicU64::new(0);
     let raw = AtomicU64::new(0);
     let minimise_budget = AtomicU64::new(150);
-    let ef_budget = AtomicU64::new(if ctx.quick() { 150 } else { 5000 });
+    let ef_budget = AtomicU64::new(if ctx.quick() { 3000 } else { 100000 });
     let class_passed = AtomicU64::new(0);
     let mut fam_reports = vec![];
     let (mut th, mut tc) = (0u64, 0u64);
@@ -280,8 +287,26 @@ fn main() {
                 class_passed.fetch_add(1, Ordering::Relaxed);
             } else {
                 // representative per shape class: multiset of call kinds
-                let mut kinds: Vec<String> = p.calls.iter().map(|c| format!("{c:?}").split('(').next().unwrap().to_string()).collect();
-                kinds.sort();
+                // shape class for the configuration sweep: call kinds in order, with operands
+                // abstracted to handle / fresh / constant
+                let kinds: Vec<String> = p
+                    .calls
+                    .iter()
+                    .map(|c| {
+                        let name = format!("{c:?}");
+                        let name = name.split('(').next().unwrap().to_string();
+                        let ops: String = c
+                            .operands()
+                            .iter()
+                            .map(|o| match o {
+                                vpe1::Opnd::H(_) => 'h',
+                                vpe1::Opnd::C(_) => 'c',
+                                _ => 'n',
+                            })
+                            .collect();
+                        format!("{name}:{ops}")
+                    })
+                    .collect();
                 if rep_seen.insert(vpe1::explore::h128(&kinds.join(","))) {
                     reps.lock().unwrap().push(p.clone());
                 }
